@@ -32,7 +32,7 @@ def rnd_op(rnd, dbs):
     return db, {"op": "set-safe", "k": k, "v": rnd.choice(VALUES), "ver": rnd.choice([0, 3, 9])}
 
 
-def build(cid, rnd, seed, mode, n_before, n_away, n_during, newdb_away, snapshot_before):
+def build(cid, rnd, seed, mode, n_before, n_away, n_during, newdb_away, snapshot_before, lock_yields=False, hot=False):
     """mode: 'empty' (wiped disk), 'snapshot' (older snapshot, oplog invalid or not), 'oplog' (clean stop)"""
     nodes = ["n1", "n2", "n3"] if seed % 2 else ["n1", "n2"]
     ops = cluster.setup_ops(nodes)
@@ -56,21 +56,25 @@ def build(cid, rnd, seed, mode, n_before, n_away, n_during, newdb_away, snapshot
         ops.append({"node": "n1", "c": "ce", "line": "use-db e tok2"})
         dbs = ["d", "e"]
         sess["e"] = "ce"
-    for _ in range(n_away):
-        do(*rnd_op(rnd, dbs))
+    for j in range(n_away):
+        if hot:
+            # the race family: plain writes of two keys, so that the catch-up carries them
+            do("d", {"op": "set", "k": KEYS[j % 2], "v": "away%d" % j})
+        else:
+            do(*rnd_op(rnd, dbs))
     restart = {"node": "n2", "restart": "n2", "wipe": mode == "empty", "line": "<restart n2 %s>" % mode,
                "op": {"op": "restart"}}
     ops.append(restart)
     seq_prefix = len(ops)
     during = []
-    for _ in range(n_during):
-        db, op = rnd_op(rnd, dbs)
+    for j in range(n_during):
+        db, op = ("d", {"op": "set", "k": KEYS[j % 2], "v": "live%d" % j}) if hot else rnd_op(rnd, dbs)
         during.append(cluster.client_op("n1", nodes, op, c=sess[db], db=db))
     case = {"id": cid, "nodes": nodes, "pids": [100, 200, 300][:len(nodes)], "formation": "direct", "policy": "random",
             "seed": seed, "ops": ops + during, "budget": 6000,
-            "interleave": True, "sequential_prefix": seq_prefix - 1,
+            "interleave": True, "sequential_prefix": seq_prefix - 1, "lock_yields": lock_yields,
             "meta": {"mode": mode, "before": n_before, "away": n_away, "during": n_during,
-                     "newdb": newdb_away, "snapshot": snapshot_before}}
+                     "newdb": newdb_away, "snapshot": snapshot_before, "lock_yields": lock_yields}}
     # the restart itself and the writes during the synchronisation are interleaved with deliveries
     return case
 
@@ -88,6 +92,13 @@ def cases_for(tier, seed):
                 cases.append(build("j%d" % n, rnd, seed + n, mode, cut1, cut2 - cut1, total - cut2,
                                    newdb_away=rnd.random() < 0.4, snapshot_before=(mode != "empty" and rnd.random() < 0.7)))
                 n += 1
+    # the race of NunSync.tla: the steps of the primary's replication loop and supervisor park before every
+    # acquisition of the cluster-state lock, live writes of the keys the catch-up carries are interleaved at random
+    for mode in ("oplog", "snapshot", "empty"):
+        for r in range(12 if tier == "quick" else 150):
+            cases.append(build("y%d" % n, rnd, seed + n, mode, rnd.randint(0, 2), rnd.randint(1, 3), rnd.randint(1, 3),
+                               newdb_away=False, snapshot_before=(mode != "empty"), lock_yields=True, hot=True))
+            n += 1
     return cases
 
 
